@@ -303,7 +303,7 @@ type IllegalCase struct {
 var illegalKinds = []string{"config-true-under-false", "config-true-under-false-deep", "config-true-in-grouping-used-under-false", "status-strengthened", "status-strengthened-deep",
 	"current-uses-deprecated-grouping", "current-type-obsolete-typedef", "deprecated-type-obsolete-typedef", "current-iffeature-deprecated-feature", "current-base-deprecated-identity",
 	"current-refine-deprecated-node", "current-uses-augment-deprecated-node", "current-augment-deprecated-node", "current-grouping-uses-deprecated-grouping", "current-typedef-type-deprecated-typedef",
-	"deviate-add-existing", "deviate-delete-missing", "deviate-delete-wrong-value", "deviate-replace-missing", "not-supported-plus-other", "deviate-add-not-allowed", "deviate-unknown-target", "deviate-replace-not-allowed"}
+	"deviate-add-existing", "deviate-delete-missing", "deviate-delete-wrong-value", "deviate-replace-missing", "not-supported-plus-other", "deviate-add-not-allowed", "deviate-unknown-target", "deviate-replace-not-allowed", "deviate-replace-duplicate"}
 
 func leaf(name string) *sg.Node {
 	return &sg.Node{Kind: "leaf", Name: name, Type: &sg.TypeSpec{Name: "string"}}
@@ -573,6 +573,22 @@ func buildIllegal(kind string, sub int, legal bool) []*sg.Mod {
 			st = `default "dv";`
 		}
 		dev.Deviations = []*sg.Deviation{{Target: tpath + "/m0:t", Deviates: []sg.Deviate{{Kind: "delete", Stmts: []string{st}}}}}
+		mods = append(mods, dev)
+	case "deviate-replace-duplicate":
+		// every property a deviate replace can give is single-valued
+		pairs := [][2]string{{`units "hours";`, `units "days";`}, {`default "a";`, `default "b";`}, {`units "hours";`, `units "hours";`}}
+		pr := pairs[v(3)]
+		sts := []string{pr[0], pr[1]}
+		if legal {
+			sts = []string{pr[0]}
+		}
+		if v(2) == 1 {
+			sts = append([]string{`default "zz";`}, sts...)
+			if sts[1][:7] == "default" {
+				sts = sts[1:]
+			}
+		}
+		dev.Deviations = []*sg.Deviation{{Target: tpath + "/m0:t", Deviates: []sg.Deviate{{Kind: "replace", Stmts: sts}}}}
 		mods = append(mods, dev)
 	case "deviate-replace-missing":
 		st := `mandatory true;`
